@@ -109,7 +109,7 @@ Ltac simp_st :=
        RE.set_cache RE.set_rewindable RE.set_exc_slot RE.set_stashed RE.set_interrupted RE.set_deferred RE.set_exit
        RE.set_bundlers RE.set_staged RE.set_moved RE.set_seen RE.set_groups RE.set_statuses RE.set_futs RE.set_uids
        RE.set_pardon RE.set_dst RE.set_task_set RE.map_bundlers RE.put_bundler RE.push_frame RE.pop_plan
-       RE.replace_top RE.resumable RE.add_status] in *.
+       RE.replace_top RE.resumable RE.add_status RE.clear_call] in *.
 
 (* ------------------------------------------------------------------ frames: what helpers leave alone *)
 (* the control fields *)
@@ -217,6 +217,17 @@ Qed.
 Lemma mark_cached_same s run d : samec s (RE.mark_cached P D s run d).
 Proof. unfold RE.mark_cached, RE.get_bundler. destruct (alookup run (bundlers s)); same_tac. Qed.
 
+Lemma cancel_task_spec s :
+  state (RE.cancel_task P D s) = state s /\ pc (RE.cancel_task P D s) = pc s /\
+  must_cancel (RE.cancel_task P D s) = match pc s with PcNone | PcDone _ => must_cancel s | _ => true end /\
+  permit (RE.cancel_task P D s) = permit s /\ blocking (RE.cancel_task P D s) = blocking s /\
+  plans (RE.cancel_task P D s) = plans s /\ resps (RE.cancel_task P D s) = resps s /\
+  stashed (RE.cancel_task P D s) = stashed s /\ interrupted (RE.cancel_task P D s) = interrupted s /\
+  icause (RE.cancel_task P D s) = icause s /\ late_pause (RE.cancel_task P D s) = late_pause s /\
+  intr_err (RE.cancel_task P D s) = intr_err s /\ cache (RE.cancel_task P D s) = cache s /\
+  bundlers (RE.cancel_task P D s) = bundlers s.
+Proof. unfold RE.cancel_task. destruct (pc s) eqn:E; simp_st; rewrite ?E; repeat split; reflexivity. Qed.
+
 (* ------------------------------------------------------------------ frame tactics *)
 Ltac frames :=
   repeat match goal with
@@ -232,6 +243,10 @@ Ltac frames :=
              let H1 := fresh "Hrc" in let H2 := fresh "Hrcr" in
              destruct (reset_checkpoint_same x) as [H1 H2];
              generalize dependent (RE.reset_checkpoint P D x); intros
+         | H : context [RE.cancel_task P D ?x] |- _ =>
+             let H1 := fresh "Hct" in
+             pose proof (cancel_task_spec x) as H1;
+             generalize dependent (RE.cancel_task P D x); intros
          | |- context [RE.mark_cached P D ?x ?r ?d] =>
              let H1 := fresh "Hmc" in
              pose proof (mark_cached_same x r d) as H1;
@@ -465,7 +480,8 @@ Ltac rw_proj :=
          end.
 Ltac simp_fn := cbn [live_state term_state pc_state_ok drv_pc blk_pc ctl_exn normal_done List.length List.tl] in *.
 Ltac norm_imp := repeat match goal with H : ?a = ?a -> _ |- _ => specialize (H eq_refl) end.
-Ltac fin1 := intuition (subst; try assumption; try reflexivity; try discriminate; try congruence; try lia).
+Ltac fin1 := intuition (subst; try assumption; try reflexivity; try discriminate; try congruence; try lia;
+                        try (rw_proj; simp_fn; discriminate)).
 Ltac fin0 :=
   try solve [ assumption | reflexivity | discriminate | congruence | lia | fin1
             | match goal with
@@ -568,6 +584,163 @@ Proof.
     apply finalize_spec in Ef; [|apply allowed_to_idle; left; apply HD].
     left. unfold final_res in Ef. fin.
     destruct pending as [e|]; [destruct e|]; simp_fn; fin0. }
+Qed.
+
+Ltac tleaf :=
+  norm; frames;
+  first [ match goal with H : drive _ _ _ _ = _ |- _ => eapply drive_inv; [|exact H]; clear H end
+        | left ];
+  fin.
+
+Lemma task_step_inv s s' o : Inv s -> task_step s = (s', o) -> Inv s' \/ OOF s' o.
+Proof.
+  intros HI H. unfold RE.task_step in H.
+  assert (A1 : pc_state_ok (pc s) (state s) = true) by apply HI.
+  destruct (pc s) eqn:Epc.
+  - (* PcNone *) inversion H; subst. left; exact HI.
+  - (* PcNotStarted *)
+    destruct (state s) eqn:Est; try discriminate A1. clear A1.
+    unfold RE.set_state in H. simp_st. rewrite Est, allowed_idle_running in H.
+    repeat (bm_hyp H); tleaf.
+  - (* PcPermit0 *)
+    destruct (state s) eqn:Est; try discriminate A1. clear A1.
+    unfold RE.set_state in H. simp_st. rewrite Est, allowed_idle_running in H.
+    repeat (bm_hyp H); tleaf.
+  - (* PcSleep0 *)
+    repeat (bm_hyp H); tleaf.
+  - (* PcPaused *)
+    destruct (state s) eqn:Est; try discriminate A1; clear A1;
+    simp_st; rewrite Est in H; ev_eqb_in H;
+    unfold RE.set_state in H; simp_st; rewrite ?Est, ?allowed_paused_running in H;
+    repeat (bm_hyp H); tleaf.
+  - (* PcCmd *)
+    destruct (must_cancel s) eqn:Emc.
+    + tleaf.
+    + destruct k.
+      * tleaf.
+      * destruct (request_pause (RE.set_must_cancel P D s false) false) as [[s1 e] o1] eqn:Erp.
+        apply request_pause_spec in Erp. destruct Erp as [Erp|Erp]; [|unfold pause_acc in Erp]; tleaf.
+      * tleaf.
+      * tleaf.
+      * pose proof (mark_cached_same (RE.set_must_cancel P D s false) run d) as Hmc.
+        set (sm := RE.mark_cached P D _ run d) in *. clearbody sm.
+        match type of H with
+        | context [RE.finish_read P D ?a ?b ?c ?d ?e] =>
+            destruct (RE.finish_read P D a b c d e) as [[s1 cr] o1] eqn:Efr
+        end.
+        tleaf.
+  - (* PcFinalSleep *)
+    assert (Hal : allowed (state s) Idle = true) by (apply allowed_to_idle; left; exact A1).
+    destruct (must_cancel s) eqn:Emc;
+      (apply finalize_spec in H; [|simp_st; exact Hal]); unfold final_res in H; simp_st; left; fin.
+  - (* PcDone *) inversion H; subst. left; exact HI.
+Qed.
+
+(* ------------------------------------------------------------------ one event *)
+(* the run permit of a paused engine that is still marked interrupted is released: in the source
+   only resume() (which clears the mark first) and abort()/stop()/halt() (which leave "paused"
+   first) call _resume_task on a paused engine *)
+Definition spurious_permit (s : st) (e : event) : bool :=
+  match e with EvPermit => rstate_eqb (state s) Paused && interrupted s | _ => false end.
+
+Ltac use_allowed :=
+  repeat match goal with
+         | H : allowed Idle ?b = true |- _ =>
+             apply allowed_from_idle in H; destruct H as [H|H]; try discriminate H
+         | H : allowed ?a Pausing = true |- _ =>
+             apply allowed_pausing_only_from_running in H; try discriminate H
+         | H : allowed ?a Suspending = true |- _ =>
+             apply allowed_suspending_only_from_running in H; try discriminate H
+         | H : allowed ?a Paused = true |- _ =>
+             apply allowed_paused_only_from_pausing in H; try discriminate H
+         | H : allowed Aborting ?b = true |- _ =>
+             apply (allowed_from_terminal Aborting b eq_refl) in H; destruct H as [H|H]; try discriminate H
+         | H : allowed Stopping ?b = true |- _ =>
+             apply (allowed_from_terminal Stopping b eq_refl) in H; destruct H as [H|H]; try discriminate H
+         | H : allowed Halting ?b = true |- _ =>
+             apply (allowed_from_terminal Halting b eq_refl) in H; destruct H as [H|H]; try discriminate H
+         end.
+
+(* case split on the (pc, state) pairs admitted by the invariant *)
+Ltac pc_state_cases s A1 :=
+  let Epc := fresh "Epc" in let Est := fresh "Est" in
+  destruct (pc s) eqn:Epc; destruct (state s) eqn:Est; simp_fn; try discriminate A1; clear A1.
+
+Lemma req_result_same s e s' o : RE.req_result P D s e = (s', o) -> samecb s s'.
+Proof. unfold RE.req_result. destruct (RE.mreq P D s); intros H; inversion H; subst; same_tac. Qed.
+
+Ltac sleaf :=
+  norm; use_allowed;
+  repeat match goal with H : RE.req_result _ _ _ _ = _ |- _ => apply req_result_same in H end;
+  frames; left; fin.
+
+Ltac step_intro HI H A1 :=
+  intros HI H;
+  match type of HI with Inv ?s => assert (A1 : pc_state_ok (pc s) (state s) = true) by apply HI end;
+  cbn [RE.step] in H.
+
+Lemma step_permit s s' o :
+  (spurious_permit s EvPermit = true -> G) -> Inv s -> step s EvPermit = (s', o) -> Inv s' \/ OOF s' o.
+Proof.
+  intros Hsp. step_intro HI H A1.
+  cbn [spurious_permit] in Hsp. destruct (pc s) eqn:Epc; sleaf.
+  destruct H8 as [g|H8]; [left; exact g|].
+  destruct (interrupted s) eqn:Ei; [|right; intros [Hx _]; discriminate Hx].
+  destruct (state s) eqn:Est; try discriminate A1;
+    try (right; intros HPR; destruct (H8 HPR) as [(Hx & _)|[(Hx & _)|[]]]; discriminate Hx).
+  left; apply Hsp; reflexivity.
+Qed.
+
+Lemma step_main a s s' o : Inv s -> step s (EvMain a) = (s', o) -> Inv s' \/ OOF s' o.
+Proof.
+  step_intro HI H A1. destruct a.
+  - (* ACall *) eqb_cases H; destruct (pc s) eqn:Epc; sleaf.
+  - (* AResume *)
+    eqb_cases H; [|destruct (pc s) eqn:Epc; sleaf].
+    repeat (bm_hyp H); destruct (pc s) eqn:Epc; sleaf.
+  - destruct (pc s) eqn:Epc; sleaf.
+  - destruct (pc s) eqn:Epc; sleaf.
+  - destruct (pc s) eqn:Epc; sleaf.
+Qed.
+
+Lemma step_maindone a s s' o : Inv s -> step s (EvMainDone a) = (s', o) -> Inv s' \/ OOF s' o.
+Proof. step_intro HI H A1. destruct (pc s) eqn:Epc; sleaf. Qed.
+
+Lemma step_reqpause d s s' o : Inv s -> step s (EvReqPause d) = (s', o) -> Inv s' \/ OOF s' o.
+Proof.
+  step_intro HI H A1.
+  destruct (request_pause s d) as [[s1 e1] o1] eqn:Erp.
+  apply request_pause_spec in Erp. destruct Erp as [Erp|Erp]; [|unfold pause_acc in Erp];
+    destruct (RE.req_result P D s1 e1) as [s2 o2] eqn:Err; destruct (pc s) eqn:Epc; sleaf.
+Qed.
+
+Lemma step_reqabort rs s s' o : Inv s -> step s (EvReqAbort rs) = (s', o) -> Inv s' \/ OOF s' o.
+Proof.
+  step_intro HI H A1. simp_st. pc_state_cases s A1;
+    rewrite ?Est in H; ev_eqb_in H; repeat (bm_hyp H); sleaf.
+Qed.
+
+Lemma step_reqstop s s' o : Inv s -> step s EvReqStop = (s', o) -> Inv s' \/ OOF s' o.
+Proof.
+  step_intro HI H A1. simp_st. pc_state_cases s A1;
+    rewrite ?Est in H; ev_eqb_in H; repeat (bm_hyp H); sleaf.
+Qed.
+
+Lemma step_reqhalt s s' o : Inv s -> step s EvReqHalt = (s', o) -> Inv s' \/ OOF s' o.
+Proof.
+  step_intro HI H A1. simp_st. pc_state_cases s A1;
+    rewrite ?Est in H; ev_eqb_in H; repeat (bm_hyp H); sleaf.
+Qed.
+
+Lemma step_small e s s' o :
+  match e with EvResumeTask | EvRelease _ | EvStatus _ _ | EvCacheDone => True | _ => False end ->
+  Inv s -> step s e = (s', o) -> Inv s' \/ OOF s' o.
+Proof.
+  intros He; destruct e; try contradiction; clear He; step_intro HI H A1.
+  - destruct (pc s) eqn:Epc; sleaf.
+  - repeat (bm_hyp H); destruct (pc s) eqn:Epc; sleaf.
+  - destruct (pc s) eqn:Epc; sleaf.
+  - destruct (pc s) as [| | | | |k| |] eqn:Epc; try destruct k; sleaf.
 Qed.
 
 End WithEscape.
